@@ -1,6 +1,7 @@
 //! fr-core as a library (shared by the worker binary and the libFuzzer targets).
 pub mod adapters;
 pub mod baton;
+pub mod bgdeliver;
 pub mod exec;
 pub mod flushrace;
 pub mod narrate;
